@@ -143,8 +143,20 @@ class Srv6SidInformation:
 
     def json(self, compact: bool | None = None) -> str:
         s: str = '{{ "sid": "{}", "flags": 0, "endpoint_behavior": {}'.format(str(self.sid), self.behavior)
-        content: str = ', '.join(subsubtlv.json() for subsubtlv in self.subsubtlvs)
-        if content:
-            s += ', {}'.format(content)
+        # a known sub-sub-TLV renders as '"name": value', an unknown one as a bare object: inside this
+        # object the latter need a name of their own, and a repeated name would be a duplicate key
+        named: dict[str, str] = {}
+        unknown: list[str] = []
+        for subsubtlv in self.subsubtlvs:
+            rendered = subsubtlv.json()
+            if rendered.startswith('{'):
+                unknown.append(rendered)
+            else:
+                named.setdefault(rendered.split(':', 1)[0], rendered)
+        parts = list(named.values())
+        if unknown:
+            parts.append('"unknown": [ {} ]'.format(', '.join(unknown)))
+        if parts:
+            s += ', {}'.format(', '.join(parts))
         s += ' }'
         return s
